@@ -130,6 +130,14 @@ def judge(pid, b, o, f, V):
         if len(exp) != len(got):
             viol(f"{key}: {len(got)} borrowed parts, specification predicts {len(exp)}", "count")
             return
+        # the property relates the real reader to the real writer: every borrowed part is a block the real serializer
+        # wrote (offset and length as recorded by the recording WriteWithNames), whatever the specification says
+        if b["mode"] == "pub":
+            blocks = {(e["pos"], e["len"]) for e in s.get("ev", []) if e.get("ev") == "block"}
+            for g in got:
+                if g["len"] > 0 and g["inb"] and (g["off"], g["len"]) not in blocks:
+                    viol(f"{key}: a borrowed part covers bytes {g['off']}..{g['off'] + g['len']} of the stream, but the serializer "
+                         f"wrote no zero-copy block there (its blocks: {sorted(blocks)[:6]})", "notablock")
         for x, g in zip(exp, got):
             if g["len"] == 0 and g["esz"] == 0:
                 continue  # a slice of zero-sized elements covers no byte of anything
@@ -331,7 +339,11 @@ def trace_validation(pid, tier, seed, V, tag):
     from .cursor import split_runs
     runs, maxlen = (400, 40) if tier == "quick" else (4000, 150)
     raw = os.path.join(WORK, tag, "recorded.ndjson")
-    open(raw, "w").write(harness(["record", str(seed), str(runs), str(maxlen)], timeout=3000))
+    # ... and a few runs whose outermost sequences have lengths around the usual buffer sizes (255 .. 8195 items,
+    # multi-byte characters straddling every power of two)
+    nlong = 16 if tier == "quick" else 80
+    open(raw, "w").write(harness(["record", str(seed), str(runs), str(maxlen)], timeout=3000)
+                         + harness(["record", str(seed + 17), str(nlong), "40", "long"], timeout=3000))
     keep, mine = TRACE_FILTER[pid]
     path = os.path.join(WORK, tag, f"trace_{pid}.ndjson")
     lines = prep_trace(open(raw).read().splitlines(), keep)
@@ -344,7 +356,8 @@ def trace_validation(pid, tier, seed, V, tag):
     V.cov["recorded_events"] = nev
     # the full-copy reader, call by call (Trace_Read.tla)
     if pid in READ_TRACE_MINE:
-        rl = [x for x in open(raw).read().splitlines() if re.search(r'"ev":\s*"r(init|d|align|ret)"', x)]
+        rl = [x for x in open(raw).read().splitlines() if re.search(r'"ev":\s*"r(init|d|align|ret)"', x)
+              and not re.search(r'"ev":\s*"rd".*"len":\s*0\b', x)]      # zero-length reads transfer nothing
         rpath = os.path.join(WORK, tag, f"rtrace_{pid}.ndjson")
         open(rpath, "w").write("\n".join(rl) + "\n")
         racc, rrej = validate_ser_traces(rpath, tag, V, pid, READ_TRACE_MINE[pid], module="Trace_Read")
@@ -407,7 +420,15 @@ def validate_ser_traces(path, tag, V, pid, mine, module="Trace_Ser"):
         init = json.loads(run[0])
         kind = ev["ev"]
         rep = {"init": init, "rejected_event": ev, "event_index": at, "prefix": [json.loads(x) for x in run[max(1, at - 6):at]]}
-        if kind in mine:
+        is_mine = kind in mine
+        if kind == "rret":
+            # The reader trace can be rejected at its last line only because an earlier call was left out or added
+            # by a harmless change of grain: the returned value / final position are this property's matter only
+            # if they are wrong *in themselves* (what was serialized / the length of the stream).
+            wrong_val = ev.get("st") != "ok" or ev.get("val") != [init.get("v")]
+            wrong_pos = ev.get("st") == "ok" and ev.get("rpos") != len(init.get("bytes", []))
+            is_mine = (pid == "C01" and wrong_val) or (pid == "C07" and wrong_pos)
+        if is_mine:
             from .gen_key import key_of_desc
             V.violate(f"{pid}:trace-{kind}:{key_of_desc(init['t'])}", WHAT.get(kind, "recorded execution rejected") +
                       f" (type {key_of_desc(init['t'])}, event #{at}: {json.dumps(ev)[:160]})", rep)
